@@ -590,35 +590,64 @@ impl Suite for Asm {
     fn get(&self, i: u64) -> Case {
         let mut rng = StdRng::seed_from_u64(self.seed.wrapping_mul(0x9E3779B97F4A7C15).wrapping_add(i));
         let nblocks = rng.gen_range(1..3);
+        // two renderings of the same tokens: `text` and `alt` differ only in the blanks outside the instruction lines
         let mut text = String::new();
+        let mut alt = String::new();
         let mut regions = vec![];
         let crlf = rng.gen_range(0..5) == 0;
         let nl = if crlf { "\r\n" } else { "\n" };
         for b in 0..nblocks {
             let form = rng.gen_range(0..4);
+            // the keywords are case-insensitive
+            let asm_kw = ["asm", "asm", "ASM", "Asm"][rng.gen_range(0..4)];
+            let end_kw = ["end", "end", "End", "END"][rng.gen_range(0..4)];
             match form {
-                0 => text.push_str(&format!("procedure P{b};{nl}asm")),
-                1 => text.push_str(&format!("function F{b}(A: Integer): Integer;   assembler;{nl}  asm")),
-                2 => text.push_str(&format!("procedure Q{b};{nl}begin{nl}  X:=1;{nl}    asm")),
-                _ => text.push_str(&format!("procedure R{b};{nl}var I:Integer;{nl}begin if A then{nl}asm")),
+                0 => {
+                    text.push_str(&format!("procedure P{b};{nl}{asm_kw}"));
+                    alt.push_str(&format!("procedure   P{b} ; {asm_kw}"));
+                }
+                1 => {
+                    text.push_str(&format!("function F{b}(A: Integer): Integer;   assembler;{nl}  {asm_kw}"));
+                    alt.push_str(&format!("function F{b} ( A:Integer ) :Integer ; assembler ;{nl}{nl}{asm_kw}").replace(&format!("{nl}{nl}"), nl));
+                }
+                2 => {
+                    text.push_str(&format!("procedure Q{b};{nl}begin{nl}  X:=1;{nl}    {asm_kw}"));
+                    alt.push_str(&format!("procedure Q{b} ;  begin X := 1 ;{nl}{asm_kw}"));
+                }
+                _ => {
+                    text.push_str(&format!("procedure R{b};{nl}var I:Integer;{nl}begin if A then{nl}{asm_kw}"));
+                    alt.push_str(&format!("procedure R{b};  var I : Integer ;{nl}begin{nl}if A{nl}then   {asm_kw}"));
+                }
             }
             let start = text.len();
             let k = rng.gen_range(1..7);
+            let mut body = String::new();
             for _ in 0..k {
-                text.push_str(nl);
+                body.push_str(nl);
                 if rng.gen_range(0..8) == 0 {
-                    text.push_str(nl); // a blank line between instructions
+                    body.push_str(nl); // a blank line between instructions
                 }
-                text.push_str(ASM_LINES[rng.gen_range(0..ASM_LINES.len())]);
+                body.push_str(ASM_LINES[rng.gen_range(0..ASM_LINES.len())]);
             }
+            text.push_str(&body);
+            alt.push_str(&body);
             regions.push((start, text.len(), false));
             match form {
-                0 | 1 => text.push_str(&format!("{nl}end;{nl}")),
-                2 => text.push_str(&format!("{nl}   end ;{nl}  Y:=2;{nl}end;{nl}")),
-                _ => text.push_str(&format!("{nl}end;{nl}end;{nl}")),
+                0 | 1 => {
+                    text.push_str(&format!("{nl}{end_kw};{nl}"));
+                    alt.push_str(&format!("{nl}      {end_kw}  ;{nl}"));
+                }
+                2 => {
+                    text.push_str(&format!("{nl}   {end_kw} ;{nl}  Y:=2;{nl}end;{nl}"));
+                    alt.push_str(&format!("{nl}{end_kw};Y := 2 ; end ;{nl}"));
+                }
+                _ => {
+                    text.push_str(&format!("{nl}{end_kw};{nl}end;{nl}"));
+                    alt.push_str(&format!("{nl} {end_kw} ;   end{nl};{nl}"));
+                }
             }
         }
-        let meta = serde_json::json!({"prog": {"marks": [], "nplain": 0, "regions": regions, "alts": [], "decorated": 0, "idents": []}});
+        let meta = serde_json::json!({"prog": {"marks": [], "nplain": 0, "regions": regions, "alts": [alt], "decorated": 0, "idents": []}});
         Case { text, well_formed: true, label: format!("asm#{i}"), wrap_hint: None, meta }
     }
 }
